@@ -584,7 +584,12 @@ class PatGen:
         r = self.rng
         k = t[0]
         if k in ("int", "bool", "string", "strref", "char", "f64", "po"):
-            return self.atom_pat(v, t, by_ref, at_root=(depth == 0))
+            ap = self.atom_pat(v, t, by_ref, at_root=(depth == 0))
+            # a single pattern in grouping parentheses `(p)` is a pattern
+            if getattr(self, "spellings", True) and r.random() < 0.04 and not ap.startswith("|"):
+                self.use("parenthesised")
+                return "(%s)" % ap
+            return ap
         if r.random() < 0.06:
             self.use("wild")
             return "_"
@@ -651,9 +656,14 @@ class PatGen:
             i = r.randrange(len(x[1]))
             self.mval(str(i), ("int", i))
             return "%s[%d]: %s" % (f, i, self.pat(x[1][i], ft[1], depth + 1))
-        if k == "tuple" and r.random() < 0.3:
+        if k == "tuple" and r.random() < 0.45:
             self.use("op-tuple-index")
             i = r.randrange(len(x[1]))
+            if ft[1][i][0] == "tuple" and r.random() < 0.7:
+                # two consecutive indices: `f.0.1` reaches the macro as ONE float literal token
+                j = r.randrange(len(x[1][i][1]))
+                self.use("op-tuple-index-chain")
+                return "%s.%d.%d: %s" % (f, i, j, self.pat(x[1][i][1][j], ft[1][i][1][j], depth + 1))
             return "%s.%d: %s" % (f, i, self.pat(x[1][i], ft[1][i], depth + 1))
         if k == "struct" and r.random() < 0.3:
             fs = self.g.structs[ft[1]]
